@@ -400,7 +400,13 @@ func (g *vGen) unit(kind int) {
 }
 
 // ignorable returns an event that must not alter the grouping.
+// vIgnFixed: the inserted event is always the unknown statement (histories that are expensive already)
+var vIgnFixed bool
+
 func vIgnorable() *vEvent {
+	if vIgnFixed {
+		return &vEvent{kind: kQuery, sql: "SAVEPOINT x"}
+	}
 	switch vhChoose(6) {
 	case 0:
 		return &vEvent{kind: kGTID}
